@@ -10,6 +10,7 @@ Pure queries (no state):
   commit_secret <seed32> <idx>                   → hex of build_commitment_secret
   derive <secret32> <bits> <idx>                 → hex of derive_secret
   tree <seed32> <idx> <bits>                     → <commit_secret idx> <derive (commit_secret (idx with low bits zeroed)) bits idx>
+                                                   (bits ≤ 16 and bit `bits` of idx set, else bad-op)
 Node history (state = one node: style, seed, network, manager counters, channels):
   node <n|l> <seed> <net>                        → ok base=<channel seed base>
   new <dbid> <peer33> [<idx>:<priv>]             → ok <material> | err
@@ -104,7 +105,8 @@ def pure? (toks : List String) : Option String :=
   | ["tree", s, i, b] => some <|
     match hex? s, nat? i, nat? b with
     | some seed, some idx, some bits =>
-      if seed.length = 32 ∧ bits ≤ 48 ∧ idx < 2 ^ 48 then
+      -- the harness feeds the real store a whole subtree, so bit `bits` of idx must be set
+      if seed.length = 32 ∧ bits ≤ 16 ∧ idx < 2 ^ 48 ∧ idx.testBit bits then
         let whole := commitSecret Sha256.sha256 seed idx
         let viaBase := derive Sha256.sha256 (commitSecret Sha256.sha256 seed (zeroLow idx bits)) bits idx
         s!"{toHex whole} {toHex viaBase}"
